@@ -57,4 +57,47 @@ theorem encodes_are_serialised :
     the model's `written` list does not cover that situation. -/
 theorem encode_wait_has_timeout : encodeWaitHasTimeout = true := by decide
 
+/-! ### unsynchronised session state is confined to the read loop's goroutine
+
+The LTS gives `runningSteps` (and the decode target, and the stdin decoder) to the read loop alone:
+`react` reads and extends `running` inside the `loopRead` action, no goroutine action touches it.
+In the Go code `runningSteps` is a plain map without a lock, so this is only true as long as every
+access sits on the call chain run -> runATPReadLoop -> onRuntimeMessageReceived ->
+handleWorkStartMessage / handleSignalMessage, outside `go` literals (context `loop`). An access from
+a step or signal goroutine (context `spawned`) or from `handleClosure` (`main`) is a data race - the
+runtime ends the process with `fatal error: concurrent map writes`, which nothing can recover. -/
+
+def accessesOf (f : String) : List Access := accesses.filter (fun a => a.field == f)
+
+/-- F8. `runningSteps` is touched exactly twice, both times on the read loop's goroutine: the insert
+    in `handleWorkStartMessage` and the lookup in `handleSignalMessage`. -/
+theorem runningSteps_read_loop_only :
+    accessesOf "runningSteps" =
+      [⟨"runningSteps", "read", "handleSignalMessage", "loop"⟩,
+       ⟨"runningSteps", "write", "handleWorkStartMessage", "loop"⟩] := by decide
+
+/-- F9. More generally: a field of the session that is neither a channel, a mutex nor a wait group
+    and that is ever written, deleted from, ranged over or has its address taken after
+    construction is accessed from the read loop's goroutine only; and a map is never accessed from
+    anywhere else, written or not. The remaining fields are only read (their values are interfaces
+    or pointers whose methods synchronise themselves: context, pipe, plugin schema; the stdout
+    encoder is F7's subject). -/
+theorem mutated_fields_read_loop_only :
+    sharedFields.all (fun f =>
+      let as := accessesOf f.1
+      ((as.all (fun a => a.kind == "read")) && !(mapFields.contains f.1)) ||
+        as.all (fun a => a.ctx == "loop" || a.ctx == "init")) = true := by decide
+
+/-- F10. The stdin decoder (stateful, not safe for concurrent use) is used by the read loop's
+    goroutine only: the start message in `sendInitialMessagesToClient`, then `runATPReadLoop`. -/
+theorem decoder_read_loop_only :
+    (accessesOf "cborStdin").all (fun a => a.ctx == "loop") = true ∧
+    (accessesOf "cborStdin").length = 2 := by decide
+
+/-- F11. No function of server.go is unreachable from `RunATPServer` (every access above has a
+    goroutine context). -/
+theorem every_access_has_a_context :
+    accesses.all (fun a => a.ctx == "loop" || a.ctx == "spawned" || a.ctx == "main" || a.ctx == "init") = true := by
+  decide
+
 end Arca.AtpServerFacts
